@@ -44,12 +44,12 @@ CHECKS = {
             "control flow is not generated; branch conditions are opaque so structural = concrete feasibility.",
             "DESIGN.md 3/C04"),
     "C06": ("Hypothesis-sampled + enumerated control shapes with def/use payloads; walker paths and classical reaching definitions over lian's CFG vs the SYMBOL_IS_USED edges of the entry's state-flow graph",
-            "Python methods made of control shapes whose simple statements define or copy two variables are analysed with the method as entry; "
+            "Python and JavaScript methods made of control shapes whose simple statements define or copy two variables are analysed with the method as entry; "
             "for every use, (1) every definition that is last-before-the-use on some structural path with loops run <= once must be in the set "
             "the analysis links to the use, (2) every definition in that set must reach the use in lian's CFG without passing another definition, "
             "(3) on loop-free methods the set must equal the classical reaching-definitions solution.",
             "Trusted base: harness/walker.py path semantics; the analysis' set is read from the in-memory state-flow graph (SYMBOL_IS_USED edges); "
-            "Python frontend only.",
+            "Python and JavaScript frontends.",
             "DESIGN.md 3/C06"),
     "C02": ("differential testing: Hypothesis-generated programs of a typed core language rendered in seven languages; reference K interpreter vs one common GIR interpreter over each frontend's GIR",
             "Each generated core-language program (ints, bools, strings, locals, arithmetic, comparisons, logical operators, if/else, while, counted for, "
